@@ -178,7 +178,11 @@ pub fn load_known_findings() -> Vec<KnownFinding> {
     };
     // per-property fragments (merged into known_findings.json before the final commit)
     if let Ok(rd) = std::fs::read_dir(verif_root().join("known_findings.d")) {
-        let mut paths: Vec<_> = rd.flatten().map(|e| e.path()).collect();
+        let mut paths: Vec<_> = rd
+            .flatten()
+            .map(|e| e.path())
+            .filter(|p| p.extension().map(|e| e == "json").unwrap_or(false))
+            .collect();
         paths.sort();
         for p in paths {
             if let Ok(text) = std::fs::read_to_string(&p) {
